@@ -67,11 +67,18 @@ macro_rules! hitem {
 }
 
 pub mod stubs;
+pub mod common;
+pub mod c06;
+pub mod c06t;
+pub mod c12;
 pub mod c13;
 pub mod c19;
 
 pub fn registry() -> Vec<(&'static str, &'static str, fn())> {
     let mut v = Vec::new();
+    c06::register(&mut v);
+    c06t::register(&mut v);
+    c12::register(&mut v);
     c13::register(&mut v);
     c19::register(&mut v);
     v
